@@ -170,6 +170,15 @@ impl Timer {
     }
 }
 
+// Verification hook (off unless built with --cfg nlnetlabs_routecore_verif).
+#[cfg(nlnetlabs_routecore_verif)]
+impl Timer {
+    /// Whether a tick has fired and waits to be taken by [`tick`](Self::tick).
+    pub fn verif_tick_pending(&self) -> bool {
+        !self.tick_recv.is_empty()
+    }
+}
+
 impl fmt::Display for Timer {
     fn fmt(&self, f: &mut fmt::Formatter) -> fmt::Result {
         let since = cmp::max(self.last_tick, self.last_reset);
